@@ -1519,9 +1519,38 @@ pub fn kvs_liveness(seed: u64, worker: usize, slot: &Slot) {
     let dir = fresh_dir(worker, "live");
     let (mut o, tag) = thresholds(&mut rng);
     o.push(("--memtable-size-bytes", rng.pick(&[0u64, 64]).to_string()));
+    // One execution in three starts from a full tower (see tree_liveness): sixteen generations of
+    // key 0 written and flushed one by one with the thresholds out of the way and no compaction,
+    // then a reopen.  Here the thread that stalls is the flush thread.
+    let mut trng = Rng::new(rng::mix(&[seed, 0x746f776572]));
+    let tower = trng.chance(1, 3);
+    if tower {
+        let pre: Vec<(&'static str, String)> = vec![
+            ("--l0-mandatory-compaction-threshold-files", "64".to_string()),
+            ("--l0-write-stall-threshold-files", "64".to_string()),
+            ("--max-compaction-files", "64".to_string()),
+            ("--memtable-size-bytes", "0".to_string()),
+        ];
+        let k0 = KeyValueStore::open(options(&dir, &pre)).unwrap_or_else(|e| violation("open-error", format!("{e}")));
+        for g in 0..16u64 {
+            for k in 0..6 {
+                if k == 0 || trng.chance(1, 3) {
+                    k0.put(&key(k), &value(g << 8 | k as u64, 30)).unwrap_or_else(|e| violation("write-error", format!("tower prelude: {e}")));
+                }
+            }
+            let ctl = k0.verif();
+            ctl.set_return_when_idle(true);
+            let r = k0.memtable_thread();
+            ctl.set_return_when_idle(false);
+            r.unwrap_or_else(|e| violation("daemon-returned-error", format!("tower prelude flush: {e}")));
+        }
+        drop(k0);
+    }
     let kvs = Arc::new(KeyValueStore::open(options(&dir, &o)).unwrap_or_else(|e| violation("open-error", format!("{e}"))));
     let compactors = rng.range(1, 3) as usize;
     let n_w = rng.range(2, 3) as usize;
+    let mof: Option<usize> = o.iter().find(|(k, _)| *k == "--max-open-files").and_then(|(_, v)| v.parse().ok());
+    let stall_files: usize = o.iter().find(|(k, _)| *k == "--l0-write-stall-threshold-files").and_then(|(_, v)| v.parse().ok()).unwrap_or(12);
     {
         let mut r = slot.lock().unwrap();
         r.tag = tag.to_string();
@@ -1533,13 +1562,35 @@ pub fn kvs_liveness(seed: u64, worker: usize, slot: &Slot) {
         let kvs = Arc::clone(&kvs);
         let mut rng = rng.fork();
         let n = rng.range(2, 6);
+        let slot3 = Arc::clone(slot);
         handles.push(thread::spawn(move || {
+            // Structural note for finding F-C20-4.  Level 0 is filled by the flush thread, so the
+            // writers note what the relieving compaction will need once level 0 has reached the
+            // stall threshold: at least that many tables plus the present overlap in level 1.
+            let note = |kvs: &Arc<KeyValueStore>| {
+                if let Some(mof) = mof {
+                    let lv = kvs.verif_tree().verif_levels();
+                    let lo = lv[0].iter().map(|f| f.1.clone()).min();
+                    let hi = lv[0].iter().map(|f| f.2.clone()).max();
+                    if let (Some(lo), Some(hi)) = (lo, hi) {
+                        let need = lv[0].len().max(stall_files) + lv[1].iter().filter(|f| f.1 <= hi && lo <= f.2).count();
+                        if need >= mof {
+                            let mut r = slot3.lock().unwrap();
+                            if !r.tag.contains("max-open-files") {
+                                r.tag = format!("{}:level-0-compaction-needs-at-least-max-open-files", r.tag);
+                            }
+                        }
+                    }
+                }
+            };
             for i in 0..n {
                 let k = key(rng.usize_below(6));
+                note(&kvs);
                 let r = if rng.chance(1, 6) { kvs.del(&k) } else { kvs.put(&k, &value((t as u64) << 32 | i, 40)) };
                 if let Err(e) = r {
                     violation("write-error", format!("{e}"));
                 }
+                note(&kvs);
             }
         }));
     }
@@ -1558,6 +1609,9 @@ pub fn kvs_liveness(seed: u64, worker: usize, slot: &Slot) {
     r.nontrivial = work > 0;
     r.steps = work;
     *r.probes.entry(format!("liveness_kvs_{tag}")).or_insert(0) += 1;
+    if tower {
+        *r.probes.entry("liveness_kvs_started_from_a_full_tower".into()).or_insert(0) += 1;
+    }
     *r.probes.entry("liveness_background_work_units".into()).or_insert(0) += work;
     r.sample = Some(serde_json::json!({"class": tag, "options": o.iter().map(|(k, v)| format!("{k}={v}")).collect::<Vec<_>>(), "writers": n_w, "compaction_threads": compactors}));
     drop(r);
